@@ -15,12 +15,17 @@ pub enum Op {
     PopFront,
     PopExcept(&'static str),
     Eat(&'static str, bool),
+    /// pop_except_from(set) and push the result straight back with push_front (what a tokenizer does to
+    /// un-consume): the pushed tendril shares its allocation with the front buffer when the run is long
+    Unconsume(&'static str),
 }
+
+pub const LONG: &str = "ababababab<ababababab&";
 
 pub fn alphabet() -> Vec<Op> {
     let mut v = vec![];
     // '|' = '<' + 64 and 'f' = '&' + 64 alias the set members in a 64-bit set; 3- and 4-byte characters
-    for s in ["a", "<", "ab", "", "\u{e9}", "a<", "Ab", "&b", "abababababab<", "b", "|f", "\u{20ac}<", "\u{1f600}a"] {
+    for s in ["a", "<", "ab", "", "\u{e9}", "a<", "Ab", "&b", LONG, "b", "|f", "\u{20ac}<", "\u{1f600}a"] {
         v.push(Op::PushBack(s));
     }
     for s in ["a", "<", "ab", "", "\u{e9}", "a<", "Ab"] {
@@ -31,6 +36,9 @@ pub fn alphabet() -> Vec<Op> {
     v.push(Op::PopFront);
     for set in ["<", "<&", ""] {
         v.push(Op::PopExcept(set));
+    }
+    for set in ["<", "&"] {
+        v.push(Op::Unconsume(set));
     }
     for p in ["a", "ab", "aba", "<a", "\u{e9}", "a<", "AB", "|", "\u{20ac}<"] {
         v.push(Op::Eat(p, false));
@@ -129,6 +137,19 @@ impl Model {
                     Ret::Set(Some(Err(run)))
                 }
             },
+            Op::Unconsume(set) => {
+                match self.apply(&Op::PopExcept(set)) {
+                    Ret::Set(Some(Ok(c))) => {
+                        self.chunks.insert(0, c.to_string());
+                        Ret::Set(Some(Ok(c)))
+                    },
+                    Ret::Set(Some(Err(run))) => {
+                        self.chunks.insert(0, run.clone());
+                        Ret::Set(Some(Err(run)))
+                    },
+                    r => r,
+                }
+            },
             Op::Eat(pat, ci) => {
                 let all: Vec<u8> = self.chunks.concat().into_bytes();
                 let p = pat.as_bytes();
@@ -175,6 +196,18 @@ pub fn apply_real(q: &BufferQueue, op: &Op) -> Ret {
             SetResult::FromSet(c) => Ok(c),
             SetResult::NotFromSet(t) => Err(t.to_string()),
         })),
+        Op::Unconsume(set) => match q.pop_except_from(set_of(set)) {
+            None => Ret::Set(None),
+            Some(SetResult::FromSet(c)) => {
+                q.push_front(StrTendril::from_char(c));
+                Ret::Set(Some(Ok(c)))
+            },
+            Some(SetResult::NotFromSet(t)) => {
+                let s = t.to_string();
+                q.push_front(t);
+                Ret::Set(Some(Err(s)))
+            },
+        },
         Op::Eat(pat, ci) => Ret::Eat(if *ci {
             q.eat(pat, u8::eq_ignore_ascii_case)
         } else {
@@ -201,7 +234,19 @@ pub fn run_history(ops: &[Op], h: &[u16], cap: usize) -> Result<Option<u128>, (S
     for (i, &s) in h.iter().enumerate() {
         let op = &ops[s as usize];
         if let Op::PushBack(x) | Op::PushFront(x) = op {
-            if m.total() + x.chars().count() > cap {
+            // one long (heap) buffer per history, accompanied by at most two short pushes; otherwise the cap
+            let is_long = |y: &str| y.chars().count() > 8;
+            let longs = h[..i].iter().filter(|&&p| matches!(ops[p as usize], Op::PushBack(y) | Op::PushFront(y) if is_long(y))).count();
+            let shorts = h[..i].iter().filter(|&&p| matches!(ops[p as usize], Op::PushBack(y) | Op::PushFront(y) if !is_long(y))).count();
+            if is_long(x) {
+                if longs > 0 || shorts > 2 {
+                    return Ok(None);
+                }
+            } else if longs > 0 {
+                if shorts >= 2 {
+                    return Ok(None);
+                }
+            } else if m.total() + x.chars().count() > cap {
                 return Ok(None);
             }
         }
@@ -408,7 +453,11 @@ pub fn main(ctx: &Ctx) -> ! {
         },
     );
     samples.force(json!({"deepest": render(&ops, &out.deepest)}));
-    ctx.assume("content alphabet {a,b,A,<,&,|,f,e-acute,euro sign,U+1F600}; total queued text capped so the graph is finite");
+    let dead: Vec<String> = out.symbol_uses.iter().enumerate().filter(|(_, n)| **n == 0).map(|(i, _)| format!("{:?}", ops[i])).collect();
+    if !dead.is_empty() {
+        machinery(&format!("dead alphabet symbols (never enabled): {dead:?}"));
+    }
+    ctx.assume("content alphabet {a,b,A,<,&,|,f,e-acute,euro sign,U+1F600}; total queued short text capped, plus at most one long (heap-allocated, 22 characters) buffer per history accompanied by at most two short pushes, so the graph is finite");
     ctx.assume("state key = buffer partition + heap/inline class of each buffer");
     ctx.finish(
         "model_checking",
